@@ -38,7 +38,7 @@ def print_assumptions(c, names):
 def run(c):
     c.rule = ("shutdown scenarios against sarama.MockBrokers (producer idle/mid-request/silent/retry+back-off/unreachable/failing with a slow reader/two retry levels then no leader at the flush; partition "
               "consumer idle/mid-fetch/silent/redispatch/leader loss/siblings on one worker with a leaderless child/slow reader/offset out of range; group join/join+sync retry/"
-              "running/rebalance/empty assignment/handler waiting on the session context/no coordinator/silent join; offset manager idle/marking/commit in flight/failing/silent; client "
+              "running/rebalance/empty assignment/handler waiting on the session context/initial offset fetch failing/every commit failing/no coordinator/silent join; offset manager idle/marking/commit in flight/failing/silent; client "
               "background refresh/held/down/SASL failing after the first connection; broker open/never/refused/SASL handshake or authentication failing/SASL ok) x random parameters (messages, partitions, buffer sizes, "
               "Return.Errors, retry counts, shared client) x Close or AsyncClose injected at the k-th observable event (quick: first, "
               "last, every third k; thorough: every k); one case per component instance = (model configuration, linearised "
